@@ -159,6 +159,21 @@ Fixpoint admissible (c : cache) (ops : list op) : Prop :=
   | o :: r => op_ok c o r /\ admissible (fst (step c o)) r
   end.
 
+(* the same without write-back: only "saves complete before the next operation on the same key" and
+   "a mutation goes through an object the cache still holds" *)
+Definition op_ok0 (c : cache) (o : op) : Prop :=
+  match o with
+  | OPut k _ | ORead k | ODelete k => quiet k c
+  | OMutate k _ => quiet k c /\ l_find keq k (c_lfu c) <> None
+  | _ => True
+  end.
+
+Fixpoint admissible0 (c : cache) (ops : list op) : Prop :=
+  match ops with
+  | [] => True
+  | o :: r => op_ok0 c o /\ admissible0 (fst (step c o)) r
+  end.
+
 Definition is_writeback (o : op) : bool := match o with OWriteBack _ => true | _ => false end.
 Definition no_writeback (ops : list op) : Prop := forallb (fun o => negb (is_writeback o)) ops = true.
 
